@@ -13,6 +13,8 @@ import Driver.Convert
 import Driver.Stream
 import Driver.Lookup
 import Driver.Registry
+import Driver.System
+import Driver.Endpoint
 
 open Panrpc
 
@@ -71,6 +73,8 @@ structure St where
   stm : St.State := St.init []
   lk : Driver.Lk.LkState := {}
   rg : RgQ.RgSt := {}
+  sys : Sys.State := Sys.init
+  ep : Ep.State := Ep.init
   dead : Bool := false     -- a previous line of this trace was rejected
 
 def handle (st : St) (line : String) : St × String :=
@@ -100,6 +104,15 @@ def handle (st : St) (line : String) : St × String :=
   | "rg" :: rest =>
     let (rg', ans, ok) := RgQ.rgHandle st.rg rest
     ({ st with rg := rg', dead := st.dead || !ok }, ans)
+  | "ep" :: rest =>
+    match Driver.Ep.handle st.ep rest with
+    | (some s', ans, _) => ({ st with ep := s' }, ans)
+    | (none, ans, true) => ({ st with dead := true }, ans)
+    | (none, ans, false) => (st, ans)
+  | "epq" :: rest => (st, Driver.Ep.epQuery rest)
+  | "sys" :: rest =>
+    let (s', ans) := SysQ.sysHandle st.sys rest
+    ({ st with sys := s', dead := st.dead || ans.startsWith "rejected" }, ans)
   | "lk" :: rest =>
     let (lk', a) := Driver.Lk.lookupStep st.lk rest
     ({ st with lk := lk' }, a)
